@@ -22,9 +22,11 @@ def mctx(F):
         c.evs, c.raw, c.col = state_events(F, c.merge, stop_names=c.g.api)
     # the descent: the recursive private function reachable from merge
     c.rec = None
-    for e in c.raw:
-        if e.kind == "call" and e.callee.get("local") and e.path == e.body.path:
-            c.rec = e.body
+    reach = G.merge_closure(c.g) if c.merge is not None else set()
+    for p in sorted(F.recursive):
+        b = F.bodies.get(p)
+        if b is not None and b.kind != "Closure" and b.vis != "pub" and p in reach:
+            c.rec = b
     _C[id(F)] = c
     return c
 
@@ -192,17 +194,39 @@ def mg3456(F, R):
         else:
             R.ok("MG5", e.where(), "put(left, data of right) iff right has data", detail)
     # ---- MG6
-    recs = [e for e in raw if e.kind == "call" and e.path == rec.path]
-    marks = [e for e in raw if e.kind == "call" and e.name == "insert" and "HashMap" in e.path and strip_load(e.args[0]) == mp]
+    recs = [e for e in raw if e.kind == "call" and e.path == rec.path]   # in the body or in a closure it hands to an adaptor
     R.floor("MG6", "recursive calls of the descent", len(recs), 1, rec.where())
-    okmark = [m for m in marks if strip_load(m.args[1]) == right and strip_load(m.args[2]) == left]
+    # right ↦ left recorded: map.insert(right, left), or entry(right) matched Vacant and filled with left
+    okmark = []
+    for e in raw:
+        if e.kind != "call" or e.name != "insert":
+            continue
+        if "HashMap" in e.path and len(e.args) == 3 and strip_load(e.args[0]) == mp and strip_load(e.args[1]) == right and strip_load(e.args[2]) == left:
+            okmark.append((e, "insert"))
+        if "VacantEntry" in e.path and len(e.args) == 2 and strip_load(e.args[1]) == left:
+            ent = [x for x in walk(e.args[0]) if x[0] == "call" and x[1].split("::")[-1] == "entry" and "HashMap" in x[1]]
+            if ent and strip_load(ent[0][2][0]) == mp and strip_load(ent[0][2][1]) == right:
+                okmark.append((e, "entry"))
     if not okmark:
         R.bad("MG6", "MG6/Sodg::merge/right-not-marked", rec.where(), "the descent does not record right ↦ left in the map: completeness check and cycle cut are void")
-    for m in okmark:
-        guarded = any(f[0] == "bool" and f[2] is False and strip_load(f[1])[0] == "call" and strip_load(f[1])[1].split("::")[-1] == "contains_key"
-                      and strip_load(strip_load(f[1])[2][1]) == right for f in m.facts)
-        if not guarded:
+
+    def unvisited(f):
+        """fact: `right` is not in the map yet"""
+        if f[0] == "bool" and f[2] is False:
+            ce = strip_load(f[1])
+            return ce[0] == "call" and ce[1].split("::")[-1] == "contains_key" and strip_load(ce[2][0]) == mp and strip_load(ce[2][1]) == right
+        if f[0] == "in" and strip_load(f[1])[0] == "discr":
+            ce = strip_load(strip_load(f[1])[1])
+            if ce[0] == "call" and "HashMap" in ce[1] and strip_load(ce[2][0]) == mp and strip_load(ce[2][1]) == right:
+                if ce[1].split("::")[-1] == "get" and f[2] == frozenset(["None"]):
+                    return True
+                if ce[1].split("::")[-1] == "entry" and f[2] == frozenset(["Vacant"]):
+                    return True
+        return False
+    for m, how in okmark:
+        if not any(unvisited(f) for f in m.facts):
             R.bad("MG6", "MG6/Sodg::merge/mark-not-guarded-by-unvisited", m.where(), "a right vertex already mapped is mapped again (its first mapping is overwritten)")
+    okmark = [m for m, how in okmark]
     for e in recs:
         args = [strip_load(a) for a in e.args]
         # (self, g, matched, to, mapped) in declaration order
@@ -214,7 +238,8 @@ def mg3456(F, R):
         parts = list(mt[1]) if mt is not None and mt[0] == "phi" else [mt]
         ok_m = mt is not None and all(p is not None and (mentions(p, lambda x: x[0] == "call" and (x[1].endswith("::kid") or x[1].endswith("::next_id") or
                                       ("HashMap" in x[1] and x[1].split("::")[-1] == "get")))) for p in parts)
-        dom = any(m.body is e.body and m.body.dominates(m.site, e.site) for m in okmark)
+        dom = any(ev_dominates(m, e) or (m.body is e.body and m.body.dominates(m.site, e.site)) or
+                  (e.chain and m.body is e.chain[-1][0] and m.body.dominates(m.site, e.chain[-1][1])) for m in okmark)
         detail = {"matched": show(mt, e.body) if mt else None, "to": show(to, e.body) if to else None}
         if vals.get(gp) != gp or vals.get(mp) != mp or vals.get(("param", 1)) != ("param", 1):
             R.bad("MG6", "MG6/Sodg::merge/descent-args", e.where(), "the descent does not pass on the same graphs and map", detail)
@@ -292,7 +317,11 @@ def mg78(F, R):
         else:
             eqfact = q
             R.ok("MG7", m.where(site), "Ok(()) only after the descent succeeded and |mapped| == |present vertices of the right graph|", detail)
-    # MG8
+    # MG8: where the error for an incomplete mapping is built (in merge itself or in a helper inlined into it)
+    if not errs:
+        for site, kind, st in m.sites():
+            if kind == "stmt" and st["k"] == "assign" and st["rv"]["k"] == "aggregate" and st["rv"].get("adt") == "Result" and st["rv"].get("variant") == "Err":
+                errs.append((site, m.expr_rvalue(st["rv"], site)))
     if not errs:
         R.bad("MG8", "MG8/Sodg::merge/no-error-result", m.where(), "merge() has no Err result for an incomplete mapping")
     for site, e in errs:
@@ -308,6 +337,23 @@ def mg78(F, R):
             if lhs_right and rhs_map:
                 okdiff = True
         sorts = [(s, t) for s, t in m.calls() if t["callee"].get("name") in ("sort", "sort_unstable", "sorted", "sort_by_key") and m.dominates(s, site)]
+        # alternative: the missed ids are collected by a loop over keys(right) (ascending) keeping those not in the map
+        if not okdiff:
+            raw_m = Collector(F, stop_names=c.g.api).collect(m)
+            for p in raw_m:
+                if p.kind == "call" and p.name == "push" and p.body is m and len(p.args) == 2 and m.reaches(p.site, site):
+                    it = [x for x in walk(p.args[1]) if x[0] == "item"]
+                    from_right = it and mentions(it[0][1], lambda y: y[0] == "call" and y[1].endswith("::keys") and y[2] and strip_load(y[2][0]) == gp)
+                    not_mapped = any(f[0] == "bool" and f[2] is False and strip_load(f[1])[0] == "call" and
+                                     strip_load(f[1])[1].split("::")[-1] == "contains_key" and
+                                     strip_sites(strip_load(strip_load(f[1])[2][0])) == strip_sites(mapx) and
+                                     it and strip_sites(unload(strip_load(f[1])[2][1])) == strip_sites(unload(p.args[1]))
+                                     for f in p.facts)
+                    extra = [f for f in p.facts if "contains_key" not in repr(f) and not (f[0] == "in" and strip_load(f[1])[0] == "discr")
+                             and not (f[0] == "cmp" and f[1] == "!=") and "Level" not in repr(f)]
+                    if from_right and not_mapped and not extra and mentions(pay, lambda y: strip_sites(y) == strip_sites(strip_load(p.args[0]))):
+                        okdiff = True
+                        sorts = sorts or [("keys() of the right graph is ascending", None)]
         detail = {"guards": [show(f, m) for f in facts if "Level" not in repr(f)]}
         if not ne:
             R.bad("MG8", "MG8/Sodg::merge/err-not-on-incomplete-edge", m.where(site), "the Err result is not the other edge of the completeness test", detail)
